@@ -200,6 +200,14 @@ Example C20_pin_default_limiter :
   default_limiter_burst = 25 /\ default_limiter_burst_ok = true.
 Proof. repeat split. Qed.
 
+From Coq Require Import String.
+(* ---- structural pin (srcfacts): the limiter is consulted in the single outbound write routine ---- *)
+Example C20_pin_limiter_in_write_routine :
+  limiter_callers = ["writeToNode"]%string /\ limiter_callers_ok = true /\
+  socket_writeto_callers = ["writeToNode"]%string /\
+  write_to_node_callers = ["reply"; "sendError"; "transactionQuerySender"]%string.
+Proof. repeat split. Qed.
+
 Print Assumptions C20_budget_step.
 Print Assumptions C20_run_budget.
 Print Assumptions C20_run_bound.
